@@ -180,7 +180,8 @@ def gen(rng, tier):
         cases.append(["cond %d %d" % (w, 20 if tier == "quick" else 400)])
     # copies of started function threads (join and finished() through the copy, original destroyed first in `cpd`)
     for n in ([1, 3] if tier == "quick" else [1, 2, 3, 5, 8]):
-        cases.append(["thr cpy %d %d" % (n, 3 if tier == "quick" else 40), "thr cpd %d %d" % (n, 3 if tier == "quick" else 40), "thr cpj %d 2" % n])
+        cases.append(["thr cpy %d %d" % (n, 3 if tier == "quick" else 40), "thr cpd %d %d" % (n, 3 if tier == "quick" else 40), "thr cpj %d 2" % n,
+                      "thr sst %d %d" % (n, 3 if tier == "quick" else 40)])
     # owners that never join: they poll finished() and delete the thread object as soon as it is true (free-running, ASan+UBSan)
     for n in ([8, 24] if tier == "quick" else [8, 24, 32, 32, 32, 32]):
         cases.append(["thr reap %d %d" % (n, 6 if tier == "quick" else 150)])
@@ -260,7 +261,7 @@ def extra(ctx):
     tier = ctx["tier"]
     budget = 400 if tier == "quick" else 50000
     scen = ["pfs 0 1 1 %d" % budget, "pfs 0 2 2 %d" % budget, "pfs -1 2 3 %d" % budget, "pfs 0 5 2 %d" % budget, "pfs 3 3 4 %d" % budget,
-            "ths lam 1 %d" % budget, "ths lam 2 %d" % budget, "ths sub 1 %d" % budget, "ths sub 2 %d" % budget, "ths sub 3 %d" % budget,
+            "ths lam 1 %d" % budget, "ths lam 2 %d" % budget, "ths sst 1 %d" % budget, "ths sst 2 %d" % budget, "ths sub 1 %d" % budget, "ths sub 2 %d" % budget, "ths sub 3 %d" % budget,
             "ths grp 2 %d" % budget, "ths inv 2 %d" % budget, "ths inv 3 %d" % budget, "ths inv 4 %d" % budget]
     out, crash, err = core.run_impl(ctx["exe"], scen, timeout=1200)
     fails = []
